@@ -22,7 +22,7 @@ MC_Canon == {"sac"}
 MC_Metas == [good     |-> [nameLen |-> 10, symLen |-> 4, decimals |-> 7, utf8 |-> TRUE, style |-> "ascii"],
              emptySym |-> [nameLen |-> 5,  symLen |-> 0, decimals |-> 7, utf8 |-> TRUE, style |-> "ascii"],
              sacMeta  |-> [nameLen |-> 6,  symLen |-> 6, decimals |-> 7, utf8 |-> TRUE, style |-> "ascii"]]
-MC_Keys == {"k1", "k1b"}
+MC_Keys == {"k1", "k1b", "k1_e"}
 
 Tx(id, to, amt, data) == [outer |-> "recv", origin |-> "ethereum", inner |-> "transfer", id |-> id, sender |-> "evm1",
                           recipient |-> to, amt |-> amt, data |-> data, mut |-> NoMut]
@@ -60,7 +60,9 @@ MC_Deliveries ==
      a_pay |-> [key |-> "k1",  srcChain |-> "axelar", srcAddr |-> "hub",    dest |-> "its",   payload |-> "p_tx2"],
      a_src |-> [key |-> "k1",  srcChain |-> "axelar", srcAddr |-> "nothub", dest |-> "its",   payload |-> "p_tx"],
      a_dst |-> [key |-> "k1",  srcChain |-> "axelar", srcAddr |-> "hub",    dest |-> "carol", payload |-> "p_tx"],
-     a_id  |-> [key |-> "k1b", srcChain |-> "axelar", srcAddr |-> "hub",    dest |-> "its",   payload |-> "p_tx"]]
+     a_id  |-> [key |-> "k1b", srcChain |-> "axelar", srcAddr |-> "hub",    dest |-> "its",   payload |-> "p_tx"],
+     \* the id of k1 claimed from another chain (key names "<id>_<tag>" share the message id "<id>"); never approved
+     a_chn |-> [key |-> "k1_e", srcChain |-> "ethereum", srcAddr |-> "hub", dest |-> "its",   payload |-> "p_tx"]]
 
 Setup(s) ==
     IF s.reg["iA1"] = "none"
@@ -73,7 +75,7 @@ Setup(s) ==
     ELSE {}
 
 Main(s) ==
-    {[name |-> "ApproveDelivery", d |-> d] : d \in DOMAIN Deliveries}
+    {[name |-> "ApproveDelivery", d |-> d] : d \in DOMAIN Deliveries \ {"a_chn"}}
     \cup {[name |-> "Execute", d |-> d] : d \in DOMAIN Deliveries}
     \cup {[name |-> "Deliver", payload |-> p, srcChain |-> "axelar", srcAddr |-> "hub"] : p \in DOMAIN RawPayloads}
     \cup {[name |-> "Deliver", payload |-> p, srcChain |-> c, srcAddr |-> x] :
